@@ -95,6 +95,11 @@ def gen_cases(rng, tier, scale):
             parts['part'] = pre_lines + 'p' + body + nl + 'tail'
             main = 'm' + nl + '{{> part}}'
             errtpl = 'part'
+        if k % 5 == 2:
+            if where == 'part':
+                parts['part'] = '\ufeff' + parts['part']
+            else:
+                main = '\ufeff' + main
         src = parts['part'] if where == 'part' else main
         idx = src.index(MARK)
         src = src.replace(MARK, tag)
